@@ -333,8 +333,102 @@ func runC19KV(jc *JobCtx) {
 	rep.outcome("kv-ok")
 }
 
+// c19Rewrite writes sequence a to a path, then sequence b to the SAME path (a backup directory that is
+// reused), and reads the file back: it must hold exactly b.
+func c19Rewrite(db *nitro.Nitro, a, b [][]byte, blockSize int) (problem string) {
+	defer func() {
+		if r := recover(); r != nil {
+			problem = fmt.Sprintf("panic: %v", r)
+		}
+	}()
+	nitro.DiskBlockSize = blockSize
+	fs := vos.NewMemFS()
+	vos.FS = fs
+	defer func() { vos.FS = nil }()
+	var wsum uint32
+	for _, items := range [][][]byte{a, b} {
+		w := nitro.VerifNewFileWriter(db)
+		if err := w.Open("/f"); err != nil {
+			return "writer Open: " + err.Error()
+		}
+		for _, it := range items {
+			if err := w.WriteItem(nitro.VerifNewItem(db, it)); err != nil {
+				return "WriteItem: " + err.Error()
+			}
+		}
+		wsum = w.Checksum()
+		if err := w.Close(); err != nil {
+			return "writer Close: " + err.Error()
+		}
+	}
+	r := nitro.VerifNewFileReader(db, 1)
+	if err := r.Open("/f"); err != nil {
+		return "reader Open: " + err.Error()
+	}
+	defer r.Close()
+	for i, want := range b {
+		itm, err := r.ReadItem()
+		if err != nil || itm == nil {
+			return fmt.Sprintf("after rewriting the file ReadItem #%d returned (%v,%v)", i, itm != nil, err)
+		}
+		if !bytes.Equal(itm.Bytes(), want) {
+			return fmt.Sprintf("after rewriting the file ReadItem #%d returned %x, the second writer wrote %x", i, clip(itm.Bytes()), clip(want))
+		}
+	}
+	if itm, err := r.ReadItem(); err != nil || itm != nil {
+		return fmt.Sprintf("after rewriting the file and reading the second writer's %d items ReadItem returned (%v,%v) instead of end-of-stream", len(b), itm != nil, err)
+	}
+	if r.Checksum() != wsum {
+		return fmt.Sprintf("after rewriting the file the reader checksum %08x != the second writer's checksum %08x", r.Checksum(), wsum)
+	}
+	return ""
+}
+
+func runC19Rewrite(jc *JobCtx) {
+	rep := jc.Rep
+	strs := c19Strings()
+	db := nitro.New()
+	// sequences of 0-2 items over a few representative strings: every ordered pair (first content, second content)
+	pick := []int{0, 2, 5, 20, 83}
+	var seqs [][]int
+	seqs = append(seqs, []int{})
+	for _, x := range pick {
+		seqs = append(seqs, []int{x})
+		for _, y := range pick {
+			seqs = append(seqs, []int{x, y})
+		}
+	}
+	one := func(ai, bi, bs int) {
+		a := c19Decode(strs, c19Boundary, seqs[ai])
+		b := c19Decode(strs, c19Boundary, seqs[bi])
+		rep.Executions++
+		rep.Nontrivial++
+		rep.Transitions += int64(len(a) + len(b) + 2)
+		if p := c19Rewrite(db, a, b, bs); p != "" {
+			rep.violate(Viol{Kind: "framing-rewrite", Msg: fmt.Sprintf("%s (first content %s, second content %s, block size %d)", p, itemsDesc(a), itemsDesc(b), bs), Site: "file.go", Job: jc.Job.Name, Choices: []int{ai, bi, bs}})
+		}
+	}
+	if jc.Replay {
+		c := jc.ReplayChois
+		one(c[0], c[1], c[2])
+		return
+	}
+	for ai := range seqs {
+		for bi := range seqs {
+			for _, bs := range []int{8, 512 * 1024} {
+				one(ai, bi, bs)
+			}
+		}
+	}
+	rep.Nodes = rep.Executions
+	rep.Bound = "all ordered pairs of 31 short sequences"
+	rep.sample("a file written twice through the real writer (a reused backup path): the second content must be what the reader returns")
+	rep.outcome("rewrite-ok")
+}
+
 func c19Jobs(tier string) []Job {
 	var jobs []Job
+	jobs = append(jobs, Job{Name: "C19/v1/rewrite-same-path", Run: runC19Rewrite})
 	n := len(c19Strings())
 	maxLen := 3
 	for f := 0; f < n; f++ {
